@@ -77,7 +77,7 @@ type regime struct {
 	split     bool // serial: a TNC->host frame is handed over in pieces
 	eager     bool // ARQ data in the same segment as the CONNECTED line
 	coalesced bool // serial: several frames handed over in one segment (and not eager)
-	badcrc    bool // serial: damaged frames towards the host
+	badcrc    bool // serial: damaged frames towards the host (probe only: no tag, the clause holds there)
 	maxframe  bool // an ARQ frame whose count field is 65534 or 65535
 }
 
@@ -123,9 +123,6 @@ func (r regime) tag() string {
 	}
 	if r.coalesced {
 		s += "-coalesced"
-	}
-	if r.badcrc {
-		s += "-badcrc"
 	}
 	if r.maxframe {
 		s += "-maxframe"
